@@ -236,6 +236,10 @@ def mirror_extend_low_side(array: jax.Array, axis: int, parity: int, on_plane: b
     if not on_plane:
         return parity * jnp.flip(array, axis=axis)
     mirrored = parity * jnp.flip(_slice_axis(array, axis, 1), axis=axis)
+    if mirrored.shape[axis] == 0:
+        # A single kept sample (a two-cell symmetric axis) has no mirror image to repeat: the one
+        # reconstructed sample repeats the kept one, so the block keeps the shape of ``array``.
+        return parity * array
     return jnp.concatenate([_slice_axis(mirrored, axis, 0, 1), mirrored], axis=axis)
 
 
